@@ -176,11 +176,13 @@ class H5Group:
         return id_or_name in self.group
 
     def get_by_id_or_name(self, id_or_name):
-        if util.is_uuid(id_or_name):
+        # an exact name match wins: names are unique within a group, ids are
+        # not (copies made with kept ids) and a legal name may look like an id
+        if util.is_uuid(id_or_name) and id_or_name not in self:
             try:
                 return self.get_by_id(id_or_name)
             except KeyError:
-                # not an id in this group: a legal name may look like an id
+                # neither a name nor an id in this group
                 pass
         return self.get_by_name(id_or_name)
 
